@@ -3,7 +3,7 @@
     [Proofs/RoundTrip*.v]) with their [Print Assumptions], and non-vacuity
     examples.
 
-    Two grammars, ALL documents of each (unbounded depth and size), ALL contexts.
+    Three grammars, ALL documents of each (unbounded depth and size), ALL contexts.
 
     (1) The CORE grammar of [Doc/DocGrammar.v] (stages (a)-(d), (e2) of the plan;
         theorems [C02_..._partial] without "2", first half of this file):
@@ -57,12 +57,25 @@
         the number of absent arguments: the model's fuel [parse_fuel s cx = |s| * (8 + max_args
         cx) + 40 + max_args cx] pays for every argument slot of every specification of [cx].)
 
+    (3) The THIRD grammar of [Doc/DocGrammar3.v] (theorems [C02_...3..._partial], last part
+        of this file; the extended grammar embeds: [C02_extended_grammar_embeds], with EQUAL
+        side conditions, written form and meaning).  The above, plus
+             | WPar3 ws mid        ws newline mid newline, a whitespace run with two or more newlines in a
+                                   context WITHOUT the [\n\n] specials: the tokenizer yields one character
+                                   token, the collector adds it to the pending characters like text
+             | PArg3 ws mid        ARGUMENT position (mandatory slot): a paragraph break as the single-token
+                                   argument — a [\n\n] specials node WITHOUT arguments where the context
+                                   has these specials (whatever their signature), a characters node elsewhere
+             | BGrp3 ws oc cc body tr   ws oc body tr cc written DIRECTLY in the body of a delimited argument
+                                   [oc … cc] ([\item[see [1]]]): a group; its body [bitem*] is made of text,
+                                   comments and nested groups of the same kind (all read in the extended
+                                   state, where [oc] and [cc] are group delimiters)
+
     STILL PARTIAL (hence the names): not in any theorem are
-      - a delimited argument written directly (not inside braces) in the body of another
-        delimited argument (there the parser reads ALL children in the extended state),
-      - a whitespace run with two or more newlines in a context WITHOUT the [\n\n] specials
-        (it is a character token there), or where the [\n\n] specials takes arguments,
-      - a paragraph break as the single-token argument of a macro.
+      - inside a delimited group written directly in the body of a delimited argument: macro
+        calls, environments, math, braced groups, specials, paragraph breaks (there the parser reads
+        ALL children in the extended state, which is not a state of the grammar),
+      - a whitespace run with two or more newlines where the [\n\n] specials takes arguments.
     These stay covered by the differential correspondence and the structure oracle only.
 
     Full statement (kept for reference, not proved):
@@ -77,7 +90,8 @@ From Coq Require Import NArith List Bool Arith.
 From PLV Require Import Base.PyStr Tok.PState Tok.Tokenizer Parse.Nodes Parse.Parser Parse.ParseWire
                         Gen.GenWalkerCtx Doc.DocGrammar Doc.DocGrammar2
                         Proofs.RoundTripTok Proofs.RoundTripRules Proofs.RoundTrip Proofs.RoundTripWs
-                        Proofs.RoundTrip2 Proofs.RoundTrip2Ws Proofs.RoundTrip2Embed.
+                        Proofs.RoundTrip2 Proofs.RoundTrip2Ws Proofs.RoundTrip2Embed
+                        Doc.DocGrammar3 Proofs.RoundTrip3 Proofs.RoundTrip3Embed.
 Import ListNotations.
 
 (** ** The round trip: the strict parser, run with its own fuel on the written
@@ -626,3 +640,151 @@ Example C02_text_characters_nonvacuous :
   (ok_doc2 default_ctx bad2 = false /\
    parse_top (unparse2 bad2) false default_ctx (walker_state default_ctx) <> doc_result2 default_ctx bad2).
 Proof. vm_compute. repeat split; discriminate. Qed.
+
+Close Scope N_scope.
+
+(** * The third grammar of [Doc/DocGrammar3.v]
+
+      item3 ::= (the constructors of the extended grammar, with the same side conditions and meaning)
+              | WPar3 ws mid               ws newline mid newline   (context WITHOUT the paragraph specials)
+              | PArg3 ws mid               the same as the single-token argument of a mandatory slot
+              | BGrp3 ws oc cc body tr     ws oc body tr cc   (only directly in the body of a delimited argument
+                                           [oc … cc]; body = a list of BText ws cs | BCmt ws text post | BGrp ws body tr) *)
+
+(** ** The round trip for the third grammar *)
+Theorem C02_parse_unparse3_partial : forall cx d,
+  ok_doc3 cx d = true ->
+  parse_top (unparse3 d) false cx (walker_state cx)
+  = Ok (ONode (Some (gen_nodelist 0 (fst (tree_of3 cx (walker_state cx) 0 d))))) (length (unparse3 d)).
+Proof. exact parse_unparse3. Qed.
+Print Assumptions C02_parse_unparse3_partial.
+
+(** in BOTH parsing modes *)
+Theorem C02_parse_unparse3_modes_partial : forall cx d tol,
+  ok_doc3 cx d = true ->
+  parse_top (unparse3 d) tol cx (walker_state cx)
+  = Ok (ONode (Some (gen_nodelist 0 (fst (tree_of3 cx (walker_state cx) 0 d))))) (length (unparse3 d)).
+Proof. exact parse_unparse3_modes. Qed.
+Print Assumptions C02_parse_unparse3_modes_partial.
+
+(** ** The simulation behind it (same shape and fuel accounting as [C02_items_simulation2_partial]) *)
+Theorem C02_items_simulation3_partial : forall s cx U l ps o st pos fol k r,
+  8 <= U -> max_args cx + 4 <= U ->
+  Std cx ps -> opts_ok ps o -> r <> OutOfFuel ->
+  ok_items3 cx ps [] l fol = true ->
+  skipn pos s = unparse_items3 l ++ fol ->
+  run s false cx k (TCollect ps o (fst (absorb3 cx ps pos st l)) (pos + length (unparse_items3 l))) = r ->
+  run s false cx (k + U * length (unparse_items3 l)) (TCollect ps o st pos) = r.
+Proof. exact items_sim3_std. Qed.
+Print Assumptions C02_items_simulation3_partial.
+
+(** ** The extended grammar is a sub-grammar of the third one: [up2_doc] keeps the side
+    conditions (the two predicates are EQUAL on embedded documents), the written form and
+    the meaning (in every state, at every offset) — so [C02_parse_unparse2_partial] is an
+    instance of [C02_parse_unparse3_partial] ([Proofs/RoundTrip3Embed.v:
+    parse_unparse2_from_third]), and with [C02_core_grammar_embeds] so is
+    [C02_parse_unparse_partial]. *)
+Theorem C02_extended_grammar_embeds : forall cx d,
+  ok_doc3 cx (up2_doc d) = ok_doc2 cx d /\ unparse3 (up2_doc d) = unparse2 d /\
+  (forall ps pos, tree_of3 cx ps pos (up2_doc d) = tree_of2 cx ps pos d).
+Proof. exact grammar2_embeds. Qed.
+Print Assumptions C02_extended_grammar_embeds.
+
+(** ** Non-vacuity (third grammar) *)
+Open Scope N_scope.
+
+(** a context WITHOUT the paragraph specials: the macro [\m] with one mandatory argument
+    (whitespace allowed in front of it), [\n] with two, the second of which does not allow
+    whitespace in front of it, the specials [~] *)
+Definition c02_bare_ctx : context :=
+  {| cx_macros := [([109], {| sp_args := APStd [{| a_spec := [123]; a_kind := AKExpr true; a_delta := ADNone |}];
+                            sp_body_math := false |});
+                   ([110], {| sp_args := APStd [{| a_spec := [123]; a_kind := AKExpr true; a_delta := ADNone |};
+                                                {| a_spec := [123]; a_kind := AKExpr false; a_delta := ADNone |}];
+                            sp_body_math := false |})];
+     cx_envs := []; cx_specials := [([126], {| sp_args := APStd []; sp_body_math := false |})];
+     cx_unk_macro := None; cx_unk_env := None |}.
+
+(** (b) [a \n \n  b{c\n\n}$x\n\n$\m{y}\n\n\n%z] under that context — whitespace runs with two or
+    more newlines between text (followed by indentation), before a closing brace, in math
+    mode, after a call, before a comment: ONE characters node [a \n \n  b], … ; the same
+    document is rejected under the default context (which has the paragraph specials)
+    and really parses differently there *)
+Example C02_newlines_without_paragraph_specials_nonvacuous :
+  let d := {| d_items3 := [Text3 [] [97]; WPar3 [32] [32]; Text3 [32;32] [98];
+                           Grp3 [] [Text3 [] [99]; WPar3 [] []] [];
+                           Math3 [] MDollar [Text3 [] [120]; WPar3 [] []] [];
+                           Mac3 [] [109] [] [Grp3 [] [Text3 [] [121]] []]; WPar3 [] [10]; Cmt3 [] [122] []];
+              d_trail3 := [] |} in
+  let bad := {| d_items3 := [Text3 [] [97]; WPar3 [] []; Text3 [] [98]]; d_trail3 := [] |} in
+  (ok_doc3 c02_bare_ctx d = true /\
+   parse_top (unparse3 d) false c02_bare_ctx (walker_state c02_bare_ctx) = doc_result3 c02_bare_ctx d /\
+   length (unparse3 d) = 28%nat /\
+   length (fst (tree_of3 c02_bare_ctx (walker_state c02_bare_ctx) 0 d)) = 6%nat) /\
+  (ok_doc3 default_ctx bad = false /\
+   parse_top (unparse3 bad) false default_ctx (walker_state default_ctx) <> doc_result3 default_ctx bad).
+Proof. vm_compute. repeat split. discriminate. Qed.
+
+(** (c) [\textbf\n\nx\frac{1} \n\n x\textbf \n \ny] under the default context — a paragraph
+    break as the only argument directly after the control word, as the second argument
+    with whitespace in front of it, after the post-space of the control word: the argument
+    is the specials node [\n\n] without arguments; and [\m\n\nx\m \n \ny] under the context
+    without paragraph specials: the argument is the characters node [\n\n] / [\n \n];
+    [\n{} \n\n] (the second slot of [\n] does not allow whitespace in front of a character
+    token) is rejected and really is a parse error *)
+Example C02_paragraph_break_argument_nonvacuous :
+  let textbf := [116;101;120;116;98;102] in
+  let d := {| d_items3 := [Mac3 [] textbf [] [PArg3 [] []]; Text3 [] [120];
+                           Mac3 [] [102;114;97;99] [] [Grp3 [] [Text3 [] [49]] []; PArg3 [32] []]; Text3 [32] [120];
+                           Mac3 [] textbf [32] [PArg3 [] [32]]; Text3 [] [121]];
+              d_trail3 := [] |} in
+  let d' := {| d_items3 := [Mac3 [] [109] [] [PArg3 [] []]; Text3 [] [120];
+                            Mac3 [] [109] [32] [PArg3 [] [32]]; Text3 [] [121]];
+               d_trail3 := [] |} in
+  let bad := {| d_items3 := [Mac3 [] [110] [] [Grp3 [] [] []; PArg3 [32] []]]; d_trail3 := [] |} in
+  let good := {| d_items3 := [Mac3 [] [110] [] [Grp3 [] [] []; PArg3 [] []]]; d_trail3 := [] |} in
+  (ok_doc3 default_ctx d = true /\
+   parse_top (unparse3 d) false default_ctx (walker_state default_ctx) = doc_result3 default_ctx d /\
+   length (unparse3 d) = 35%nat /\
+   length (fst (tree_of3 default_ctx (walker_state default_ctx) 0 d)) = 6%nat) /\
+  (ok_doc3 c02_bare_ctx d' = true /\
+   parse_top (unparse3 d') false c02_bare_ctx (walker_state c02_bare_ctx) = doc_result3 c02_bare_ctx d') /\
+  (ok_doc3 c02_bare_ctx bad = false /\
+   match parse_top (unparse3 bad) false c02_bare_ctx (walker_state c02_bare_ctx) with Ok _ _ => false | _ => true end = true) /\
+  (ok_doc3 c02_bare_ctx good = true /\
+   parse_top (unparse3 good) false c02_bare_ctx (walker_state c02_bare_ctx) = doc_result3 c02_bare_ctx good).
+Proof. vm_compute. repeat split. Qed.
+
+(** (a') [\item[see [1, [2]] %x]\n ok]\sqrt[a[b]]{k}] under the default context — groups written
+    directly in the body of a bracket argument, nested, next to a comment that contains a
+    closing bracket; the same group written at top level, and one whose text contains the
+    closing delimiter, are rejected and really parse differently *)
+Example C02_groups_in_delimited_argument_nonvacuous :
+  let item := [105;116;101;109] in
+  let d := {| d_items3 := [Mac3 [] item []
+                             [Brk3 [] 91 93 [Text3 [] [115;101;101];
+                                             BGrp3 [32] 91 93 [BText [] [49;44]; BGrp [32] [BText [] [50]] []] [];
+                                             Cmt3 [32] [120;93] [10;32]; Text3 [] [111;107]] []];
+                           Mac3 [] [115;113;114;116] []
+                             [Brk3 [] 91 93 [Text3 [] [97]; BGrp3 [] 91 93 [BText [] [98]] []] [];
+                              Grp3 [] [Text3 [] [107]] []]];
+              d_trail3 := [] |} in
+  let bad1 := {| d_items3 := [Text3 [] [97]; BGrp3 [] 91 93 [BText [] [98]] []]; d_trail3 := [] |} in
+  let bad2 := {| d_items3 := [Mac3 [] item [] [Brk3 [] 91 93 [BGrp3 [] 91 93 [BText [] [98;93]] []] []]]; d_trail3 := [] |} in
+  (ok_doc3 default_ctx d = true /\
+   parse_top (unparse3 d) false default_ctx (walker_state default_ctx) = doc_result3 default_ctx d /\
+   length (unparse3 d) = 41%nat) /\
+  (ok_doc3 default_ctx bad1 = false /\
+   parse_top (unparse3 bad1) false default_ctx (walker_state default_ctx) <> doc_result3 default_ctx bad1) /\
+  (ok_doc3 default_ctx bad2 = false /\
+   parse_top (unparse3 bad2) false default_ctx (walker_state default_ctx) <> doc_result3 default_ctx bad2).
+Proof. vm_compute. repeat split; discriminate. Qed.
+
+(** the embedding is not vacuous: the embedded [c02_doc4] (optional arguments) satisfies the
+    side conditions of the third grammar and means the same tree *)
+Example C02_extended_grammar_embeds_nonvacuous :
+  ok_doc3 default_ctx (up2_doc c02_doc4) = true /\
+  parse_top (unparse3 (up2_doc c02_doc4)) false default_ctx (walker_state default_ctx) = doc_result2 default_ctx c02_doc4.
+Proof. vm_compute. repeat split. Qed.
+
+Close Scope N_scope.
